@@ -1075,7 +1075,13 @@ func (g *psGen) hostile() {
 			}
 		}
 	}
-	switch t.Choose(18) {
+	switch t.Choose(19) {
+	case 18:
+		// write into a literal: if the scanner hands out shared storage for
+		// common literals, the next reader of the same literal sees the change
+		lit := []string{"<00>", "<ff>", "<01>", "<20>", "<41>", "(a)", "( )", "<0000>", "(A)", "<00ff>"}[t.Choose(10)]
+		w(lit + fmt.Sprintf(" dup 0 %d put pop", []int{32, 255, 0, 7}[t.Choose(4)]))
+		w("/lit " + lit + " def lit 0 1 put")
 	case 16:
 		// write into whatever composite object an operator hands out
 		w([]string{"matrix", "StandardEncoding", "[ 1 2 3 ]", "6 array"}[t.Choose(4)] + fmt.Sprintf(" dup %d ", t.Choose(6)) + val() + " put pop")
